@@ -31,6 +31,11 @@ class LineStage:
         if self.impl == "c_ci":
             ok, exe, log = core.build_c()
             return ok, exe + "_ci", log
+        if self.impl == "c_asan":
+            return core.build_c_asan()
+        if self.impl == "c_s2":
+            ok, exe, log = core.build_c()
+            return ok, exe + "_s2", log
         if self.impl == "b3sum":
             return core.build_b3sum()
         raise core.InternalError(f"unknown impl {self.impl}")
